@@ -259,6 +259,13 @@ def search(ctx):
         if closed and len(segs[-1].points) > 2 and rng.random() < 0.35:
             segs[-1].points[-2] = segs[0].points[0]          # closing curve with a retracted handle: last off-curve node == first on-curve node
             dist['retracted-closing-handle'] = dist.get('retracted-closing-handle', 0) + 1
+        if closed and n >= 2 and rng.random() < 0.12:
+            # a genuine but tiny closing line next to the origin: absolutely small, relatively far (4e-7 vs 0.0)
+            o = P(0.0, 0.0) if rng.random() < 0.7 else P(0.0, float(rng.randint(-50, 50)))
+            tiny = P(o.x + rng.choice([4e-7, 9e-7, 1e-7, -3e-7]), o.y)
+            segs[0].points[0] = o; segs[-1].points[-1] = tiny
+            segs.append(Line(tiny, o)); n += 1
+            dist['tiny-closing-line-at-origin'] = dist.get('tiny-closing-line-at-origin', 0) + 1
         ev += 1; dist['random-paths'] = dist.get('random-paths', 0) + 1
         if n >= 2: seen.add(tuple(gen.seg_key(s) for s in segs))
         trips = rng.randint(1, 4)
